@@ -95,7 +95,7 @@ Fixpoint get_nodes (d : nat) (h : heap) (c : id) (pat : path) : option (list pat
         | Some ls => Some (List.concat ls) | None => None end
       else match dget p ch with
            | Some cc => match get_nodes d' h cc rest with Some l => Some (map (cons p) l) | None => None end
-           | None => None
+           | None => Some []          (* fix D73: `if node_lvl not in net: return list()` *)
            end
     | _, _ => None
     end
@@ -223,7 +223,7 @@ Fixpoint tget_nodes (t : atree) (pat : path) : option (list path) :=
         | Some ls => Some (List.concat ls) | None => None end
       else match dget p ss with
            | Some s => match tget_nodes s rest with Some l => Some (map (cons p) l) | None => None end
-           | None => None
+           | None => Some []
            end
     end
   end.
@@ -343,7 +343,7 @@ Definition tnodes_of (d : nat) (t : atree) : option (list (path * anode)) :=
    dict of node templates (one memo: sharing among the copies is preserved) and then registers the passed NodeTemplate
    objects under their names; `edges = update_edges(self.edges, edges)` copies the edge list and appends; without
    in_place a new CircuitTemplate object is constructed (its `_edge_map` is rebuilt), with in_place the attributes of
-   `self` are overwritten — `self._edge_map` is NOT rebuilt (see `stale` below).  Passing nodes to a hierarchical
+   `self` are overwritten and (fix D75) `self._edge_map` is rebuilt.  Passing nodes to a hierarchical
    template raises.  `adds` names the passed objects by the node paths they are fetched from (get_node_template). *)
 Definition resolve_adds (d : nat) (h : heap) (r : id) (adds : list (string * path)) : option (list (string * id)) :=
   mapM (fun a => match get_node_template d h r (snd a) with Some nid => Some (fst a, nid) | None => None end) adds.
@@ -412,29 +412,19 @@ Definition tobserve (d : nat) (t : atree) (nv : list nv_entry) (ev : list ev_ent
   | _, _ => ORaised
   end.
 
-(* Impl state: store, the template object the user's variable holds, and `stale`: None when `_edge_map` of that object
-   describes its edge list; Some keys after update_template(edges=.., in_place=True), which replaces `self.edges` by a
-   copy but leaves `_edge_map` pointing at the OLD tuples (keys = the (source, target) pairs it knows): update_var(edge_vars)
-   then writes into dictionaries the template no longer uses, or raises KeyError for the new edges. *)
-Definition istate := (heap * id * option (list (string * string)))%type.
-Definition edge_keys (es : list edge) : list (string * string) := map (fun e : edge => let '(s, t, _) := e in (s, t)) es.
-Definition root_edges_of (h : heap) (r : id) : list edge := match lookup h r with Some (OCirc _ es) => es | _ => [] end.
+(* Impl state: the store and the template object the user's variable holds (update_template without in_place returns a
+   new object).  Since fix D75 update_template(edges=.., in_place=True) rebuilds `_edge_map` from the new edge list
+   (`self._edge_map = {}; self.edges = self._load_edge_templates(edges)`), so get_edge always finds the first own edge. *)
+Definition istate := (heap * id)%type.
 
 Definition stepI (d : nat) (st : istate) (o : hop) : istate * hout :=
-  let '(h, r, stale) := st in
+  let '(h, r) := st in
   match o with
-  | UpdVar pat op var v => match update_var d r h pat op var v with Some h' => ((h', r, stale), ODone) | None => (st, ORaised) end
-  | UpdEdge s t upd =>
-    match stale with
-    | None => match update_edge r h s t upd with Some h' => ((h', r, stale), ODone) | None => (st, ORaised) end
-    | Some keys => if existsb (fun k => String.eqb s (fst k) && String.eqb t (snd k)) keys then (st, ODone) else (st, ORaised)
-    end
+  | UpdVar pat op var v => match update_var d r h pat op var v with Some h' => ((h', r), ODone) | None => (st, ORaised) end
+  | UpdEdge s t upd => match update_edge r h s t upd with Some h' => ((h', r), ODone) | None => (st, ORaised) end
   | UpdTemplate inpl adds es =>
     match update_template d r h inpl adds es with
-    | Some (h', r') =>
-      ((h', r', if inpl then (if is_nil es then stale
-                              else match stale with None => Some (edge_keys (root_edges_of h r)) | s => s end)
-                else None), ODone)
+    | Some (h', r') => ((h', r'), ODone)
     | None => (st, ORaised)
     end
   | Observe nv ev => (st, observe d r h nv ev)
@@ -456,11 +446,7 @@ Fixpoint runS (d : nat) (t : atree) (ops : list hop) : atree * list hout :=
   | [] => (t, [])
   | o :: rest => let '(t1, out) := stepS d t o in let '(t2, outs) := runS d t1 rest in (t2, out :: outs)
   end.
-Definition init_state (h : heap) (r : id) : istate := (h, r, None).
-
-(* guard of the known finding C07-inplace-edge-map: no update_template(edges=.., in_place=True) in the history *)
-Definition inplace_edges (o : hop) : bool := match o with UpdTemplate true _ (_ :: _) => true | _ => false end.
-Definition no_inplace_edge_template (ops : list hop) : bool := negb (existsb inplace_edges ops).
+Definition init_state (h : heap) (r : id) : istate := (h, r).
 
 (* ---------------------------------------------------------------- comparison glue for the correspondence run *)
 Definition val_eqb (a b : val) : bool :=
